@@ -36,6 +36,8 @@ type Solver struct {
 	log      io.Writer
 	timeout  int // ms
 	dead     bool
+
+	lastAssert string
 }
 
 func NewSolver(kind string, timeoutMs int) (*Solver, error) {
@@ -140,8 +142,15 @@ func (s *Solver) Declare(v *Term) {
 
 func (s *Solver) Assert(t *Term) {
 	s.declareVars(t)
-	s.send("(assert " + t.SMT() + ")")
+	smt := t.SMT()
+	if slowQueryMs > 0 {
+		s.lastAssert = smt
+	}
+	s.send("(assert " + smt + ")")
 }
+
+// slowQueryMs (GOSYM_SLOWMS, debugging aid): log queries slower than this.
+var slowQueryMs, _ = strconv.Atoi(os.Getenv("GOSYM_SLOWMS"))
 
 func (s *Solver) readLine() (string, error) {
 	l, err := s.out.ReadString('\n')
@@ -156,7 +165,17 @@ func (s *Solver) Check() SatResult {
 	s.send("(check-sat)")
 	s.w.Flush()
 	s.Queries++
-	defer func() { s.Time += time.Since(start) }()
+	defer func() {
+		d := time.Since(start)
+		s.Time += d
+		if slowQueryMs > 0 && d > time.Duration(slowQueryMs)*time.Millisecond {
+			la := s.lastAssert
+			if len(la) > 600 {
+				la = la[:600] + "..."
+			}
+			fmt.Fprintf(os.Stderr, "SLOW %v: %s\n", d, la)
+		}
+	}()
 	for {
 		l, err := s.readLine()
 		if err != nil {
